@@ -29,6 +29,8 @@ def check(ctx):
     repo = ctx.repo
     from . import generic as _gen
     _gen.language_traps(ctx, _gen.anchor_functions(repo, "C08"), "the property holds for every input, on every call")
+    _gen.split_pieces_on_empty(ctx, repo, [f for f in _gen.module_functions(repo, "dataiter.aggregate") if f.name.startswith("yield_groups")],
+                                 "one summary per group: a zero-row frame has no groups, with Numba or without")
     from . import generic
     generic.value_casts(ctx, [f for f in generic.module_functions(repo, "dataiter.aggregate") if "numba" in f.name],
                         "the compiled kernel returns the same values as the Python kernel for every element type it is admitted for")
@@ -213,6 +215,10 @@ def check(ctx):
                 return sk[:k_] + sk[k_ + 2:]
         return sk
     a, b = _no_empty_guard(a), _no_empty_guard(b)
+    if not any(x.startswith("LOOP ") and "range(1," in x for x in a) and any(x.startswith("LOOP ") and "range(1," in x for x in b):
+        # the Python scanner computes the boundaries with whole-array operations while the compiled one keeps the index
+        # loop: two different algorithms, which this twin comparison cannot relate
+        raise AnalysisError(f"{yp.qualname} no longer scans with the index loop its compiled twin uses: SIB-8 compares the two loops only")
     ok = a == b and bool(a)
     ctx.ob("SIB-8", yn, "yield_groups == yield_groups_numba modulo yield/append and the NA test", yn.node, ok,
            "the two group scanners are the same loop" if ok else f"group scanners differ: {[x for x in a if x not in b]} vs {[x for x in b if x not in a]}",
